@@ -206,6 +206,27 @@ def rule_update_index_guard(ctx, cfg='prod-all'):
     from rf_codec import generator_pairings, ZoneSum
     recs = [r for r in generator_pairings(ctx, cfg, us.path) if r['start'] is not None]
     if not recs:
+        # the product may live in a shared helper `sum(base, points, scalars)` that pairs points[k] with scalars[k] (one zip): the generator
+        # that meets the k-th scalar handed over is the k-th element of the slice handed over, whose start is known at the call
+        from rf_codec import _array_literal_ops, _is_generator_values
+        for bi, t in us.calls():
+            tgt = local_target(eng, t)
+            if not tgt or tgt == us.path or tgt not in prog.bodies:
+                continue
+            hrecs = [r for r in generator_pairings(ctx, cfg, tgt) if r['helper_param'] is not None and r['gpos'] is None]
+            for r in hrecs:
+                arg = t['args'][r['helper_param'] - 1]
+                org = z.slice_origin(z.desc_place(arg['pl'])) if arg['k'] in ('copy', 'move') else None
+                if not org or not _is_generator_values(z, org[0]):
+                    continue
+                # which argument carries the scalars, and where in it the changed message's scalar sits: an array literal `[delta]`
+                for a2 in t['args']:
+                    lit = _array_literal_ops(z, a2)
+                    if lit is None or a2 is arg:
+                        continue
+                    for kpos in range(len(lit)):
+                        recs.append({'start': org[1], 'gpos': (None, kpos), 'where': '%s L%s (through %s)' % (us.file(), t.get('line'), tgt.split('::')[-1])})
+    if not recs:
         yield Ob('RF-M', '%s#generator-offset' % us.path, False, 'the updated message position i selects generators.values[i + 1] (H_i), as in sign/verify', us.span,
                  fact='no product with an element of generators.values found', expected='values[update_index + 1]')
     for k, r in enumerate(recs):
